@@ -126,4 +126,15 @@ PROPS = {
             "thorough": [dict(test="TestC13Broadcast", checks=40000, shards=16, timeout=3000), dict(test="TestC13PositiveControl", mode="plain")],
         },
     ),
+    "C09": dict(
+        kind="ext", pkg="./c09", level="exploration", engine="specsign",
+        technique="property-based differential testing (rapid): generated values of every signed type and fork signed with an independent eth2 signing table and real threshold BLS shares, with generated corruptions; oracle = independent verification of what the aggregator publishes",
+        level_text="For every Eth2SignedData type and fork version: honest threshold subsets must yield, at every subscriber, an object whose signature verifies under the group key for the harness's own (spec-derived) signing root, domain and epoch of the object's content, and whose content is what was signed; "
+                   "any corrupted partial set must yield an error and no subscriber call.",
+        level_note="Signing roots/domains come from the harness's table (specsign) and the fake beacon node's compute_domain, not from core/eth2signeddata.go; cryptographic negatives are statistical; pre-merge (phase0/altair) proposals are outside the signing flow of the pinned dependency and are skipped.",
+        runs={
+            "quick": [dict(test="TestC09Aggregate", checks=700, shards=4, shrinktime="10s")],
+            "thorough": [dict(test="TestC09Aggregate", checks=8000, shards=16, timeout=3000)],
+        },
+    ),
 }
